@@ -31,9 +31,8 @@
  *   <module> = <name><rev><I|i><latest_revision flags, hex digit><T|t>{f+,g-}c=<-|[leaf,leaf]>r<=|+|0>
  *     I implemented, T to_compile, c = names of the x_ / y leaves of the compiled tree (the features it was compiled
  *     against), r: compiled tree is the same object as before the op (=), a new one (+), absent (0)
- *   hash=ok: ly_ctx_get_modules_hash() equals the hash recomputed by this driver from the printed fields in the
- *   way context.c does it (as coded: the feature iterator index is not reset, so only the features of the first
- *   module are hashed).
+ *   hash=ok: ly_ctx_get_modules_hash() equals the hash recomputed by this driver from the printed fields (name,
+ *   revision, enabled features, implemented flag of every module).
  * ctxo appends to every segment " # " and: data tree states (v valid and printing as before, s stale = the compiled
  *   tree it points into was freed, x prints differently), S<=|!> shadow context observable equal / different
  *   (successful ops only), hashes of the compiled YANG print per implemented module.
@@ -386,28 +385,24 @@ tag_all(struct ly_ctx *ctx)
     }
 }
 
-/* the hash as ly_ctx_get_modules_hash() computes it (as coded: the feature iterator index `fi` is never reset, so
- * only the first module's own features are visited; later modules would contribute submodule features only) */
+/* the hash of the fields ly_ctx_get_modules_hash() is documented to hash: name, revision, enabled features and the
+ * implemented flag of every module after the internal ones */
 static uint32_t
 hash_as_coded(const struct ly_ctx *ctx)
 {
     const struct lys_module *mod;
     uint32_t i = ly_ctx_internal_modules_count(ctx), hash = 0;
     LY_ARRAY_COUNT_TYPE u;
-    int first = 1;
 
     while ((mod = ly_ctx_get_module_iter(ctx, &i))) {
         hash = lyht_hash_multi(hash, mod->name, strlen(mod->name));
         if (mod->revision) {
             hash = lyht_hash_multi(hash, mod->revision, strlen(mod->revision));
         }
-        if (first) {
-            LY_ARRAY_FOR(mod->parsed->features, u) {
-                if (mod->parsed->features[u].flags & LYS_FENABLED) {
-                    hash = lyht_hash_multi(hash, mod->parsed->features[u].name, strlen(mod->parsed->features[u].name));
-                }
+        LY_ARRAY_FOR(mod->parsed->features, u) {
+            if (mod->parsed->features[u].flags & LYS_FENABLED) {
+                hash = lyht_hash_multi(hash, mod->parsed->features[u].name, strlen(mod->parsed->features[u].name));
             }
-            first = 0;
         }
         hash = lyht_hash_multi(hash, (char *)&mod->implemented, sizeof mod->implemented);
     }
